@@ -49,6 +49,7 @@ def assembleRet : List Step → Bool → Option Int
       | .dir n =>
           if n = 3 then some 3
           else if n = 4 then some 2
+          else if n = 5 then some 5                            -- `.endif` of the branch being assembled
           else if n ≠ 0 then some (-1)
           else assembleRet rest errFlag
       | .word r instr =>
@@ -71,17 +72,23 @@ def Step.clean (s : Step) : Bool :=
     | .word r instr => r = 2 || r = 1 || (r ≠ -1 && match instr with | none => true | some i => 0 ≤ i)
     | .other => false
 
-/-- parse_ifdef_ignore(): `taken` branch: nested assemble() then maybe the skip loop;
-    skipped branch: the skip loop (`skip1`: -1 missing endif, 0 endif, 2 else) then maybe assemble(). -/
+/-- assemble_branch() of directives_if.cpp: assemble the lines of a taken branch.
+    0: closed by `.endif`; 2: ended by `.else`; -1: error (EOF = missing endif, `.endr`, failure). -/
+def assembleBranch (nested : Int) : Int :=
+  if nested = 5 then 0 else if nested = 2 then 2 else -1
+
+/-- parse_ifdef_ignore(): `skip1`/`skip2` are results of the skip loop ifdef_ignore()
+    (-1 missing endif, 0 endif, 2 else), `nested` the result of the nested assemble(). -/
 def ifdefIgnoreRet (ignoreSection : Bool) (skip1 : Int) (nested : Int) (skip2 : Int) : Int :=
   if ignoreSection then
-    if skip1 = -1 then -1
-    else if skip1 = 2 then (if nested = -1 then -1 else 0)
-    else 0
+    if skip1 ≠ 2 then skip1
+    else
+      let n := assembleBranch nested
+      if n = 2 then -1 else n                       -- a second `.else`
   else
-    if nested = -1 then -1
-    else if nested = 2 then (if skip2 = -1 then -1 else 0)
-    else 0
+    let n := assembleBranch nested
+    if n ≠ 2 then n
+    else if skip2 = 2 then -1 else skip2            -- a second `.else`
 
 /-- parse_if(): condition value -1 is an error -/
 def parseIfRet (cond : Int) (skip1 nested skip2 : Int) : Int :=
